@@ -40,7 +40,7 @@ struct MSock { bool open = false, v4 = true, bound = false, listening = false, c
 
 struct Sys
 {
-	int variant; // bit0: a2 is v6; bit1: ephemeral counter starts at 65533
+	int variant; // bit0: a2 is v6; bit1: ephemeral counter starts at 65533; bit2: A0 starts out open, bound to A1:5000, listening, with one connection accepted
 	std::vector<std::string> fails; std::vector<std::string> log;
 	World w; std::unique_ptr<sim::simulation> sim; std::unique_ptr<asio::io_context> A, B;
 	std::unique_ptr<ip::tcp::socket> T[2]; std::unique_ptr<ip::tcp::acceptor> Acc; std::unique_ptr<ip::udp::socket> U[2];
@@ -157,7 +157,7 @@ struct Sys
 		switch (op.k) {
 			case OPEN4: case OPEN6: {
 				bool v4 = op.k == OPEN4; what += v4 ? "open(v4)" : "open(v6)";
-				if (is_tcp(op.o)) VF_API(tsock(op.o)->open(v4 ? ip::tcp::v4() : ip::tcp::v6(), ec)); else VF_API(usock(op.o)->open(v4 ? ip::udp::v4() : ip::udp::v6(), ec));
+				if (op.o == A0) VF_API(Acc->open(v4 ? ip::tcp::v4() : ip::tcp::v6(), ec)); /* through its own type, as a user would */ else if (is_tcp(op.o)) VF_API(tsock(op.o)->open(v4 ? ip::tcp::v4() : ip::tcp::v6(), ec)); else VF_API(usock(op.o)->open(v4 ? ip::udp::v4() : ip::udp::v6(), ec));
 				if (ec) fail("open: " + what + " failed with " + ecs(ec));
 				model_release(op.o); s.open = true; s.v4 = v4;
 				break; }
@@ -351,11 +351,23 @@ struct Sys
 struct RegistryEngine : Engine
 {
 	std::vector<Op> ops; int D = 4;
-	uint64_t units(Args const& a) override { ops = all_ops(); D = a.thorough() ? 6 : 4; return 4 * ops.size(); }
+	int nvariants = 5;
+	uint64_t units(Args const& a) override
+	{
+		ops = all_ops(); D = a.thorough() ? 6 : 4; nvariants = a.thorough() ? 8 : 5;
+		prelisten.clear();
+		auto find = [&](OpK k, int ep) { for (size_t i = 0; i < ops.size(); ++i) if (ops[i].o == A0 && ops[i].k == k && (k != BIND || ops[i].ep == ep)) return int(i); return -1; };
+		int e5000 = -1; for (int e = 0; e < NEPS; ++e) if (std::string(EPS[e].a) == "A1" && EPS[e].port == 5000) e5000 = e;
+		prelisten = { find(OPEN4, 0), find(BIND, e5000), find(LISTEN, 0), find(ACCEPT_ONE, 0) };
+		return uint64_t(nvariants) * ops.size();
+	}
 
 	// replay a history; returns false if some op was not enabled (history invalid)
+	std::vector<int> prelisten; // op indices of the start-state prefix of variants with bit 2
+	void start_state(Sys& s) { if (s.variant & 4) for (int c : prelisten) s.apply(ops[size_t(c)]); }
 	bool build(Sys& s, std::vector<int> const& hist)
 	{
+		start_state(s);
 		for (int c : hist) { if (!s.enabled(ops[size_t(c)])) return false; s.apply(ops[size_t(c)]); }
 		return true;
 	}
@@ -377,7 +389,8 @@ struct RegistryEngine : Engine
 		ctx.R.note("dump_states");
 		std::unordered_set<uint64_t> seen; // per unit: states reached through this first op
 		std::vector<std::vector<int>> frontier;
-		{ Sys s0(variant); if (!s0.enabled(ops[size_t(first)])) return; }
+		{ Sys s0(variant); start_state(s0); if (!s0.enabled(ops[size_t(first)])) return; }
+		int const D = (variant & 4) && ctx.args.thorough() ? this->D - 1 : this->D; // the pre-listening start states are explored one op less deep in the thorough tier
 		frontier.push_back({});
 		// depth 1 is the unit's first op; BFS below it
 		for (int depth = 1; depth <= D && !frontier.empty(); ++depth) {
